@@ -199,8 +199,10 @@ func (c *converter) ProgramEnd() error {
 			`set /A "_i=!_i!+1"`,
 			"goto :_sah_loop",
 			") else (",
+			`if %2 geq !_len! (`, // Only grow the slice, an assignment within its bounds must not change the length.
 			`set /A "_len=%2+1"`,
 			c.callFuncString(sliceLenSetHelper, []string{}, "!%1!", "!_len!"),
+			")",
 			")",
 			c.sliceAssignmentString("!%1!", "%2", fmt.Sprintf("!%s!", funcArgVar(0)), false),
 		)
